@@ -7,10 +7,16 @@
    - every link joins an out-port and an in-port that exist on the nodes of two PRESENT symbol
      instances of ONE namespace: no port stays linked to a removed or replaced symbol, and symbols of
      different namespaces are never linked (C06_links_sound).
-   The converse (every reference named by a spec whose target is present is linked) is compared
-   with the implementation by the correspondence run (exact wiring sets after every operation). *)
+   - C06_reference_index_exact: in every state reached by a history whose references carry an id or a name (not
+     both) and in which a name is used by one symbol of a namespace at a time, Table.references is EXACTLY the
+     reverse of the resolved port references of the present symbols: (target, in-port, referrer, out-port) is
+     recorded iff the referrer is present, has a reference on that out-port to that in-port denoting the target, and
+     the target is present and of the same namespace - nothing stale, nothing missing; names resolve through the
+     name map exactly to the present symbol of that namespace with that name (C06_names_exact).
+   The converse for the port wiring itself (every such reference is also LINKED when both nodes offer the ports) is
+   compared with the implementation by the correspondence run (exact wiring sets after every operation). *)
 From Coq Require Import List NArith ZArith Bool.
-From Uf Require Import Table.Table Table.TableProofs.
+From Uf Require Import Table.Table Table.TableProofs Table.RefsProofs.
 Import ListNotations.
 
 Theorem C06_one_per_id : forall ops, fresh_ops [] ops ->
@@ -56,3 +62,23 @@ Proof.
   apply negb_true_iff in Hx. congruence.
 Qed.
 Print Assumptions C06_lookup_after_free.
+
+Theorem C06_reference_index_exact : forall ops, wf_from t_init ops ->
+  forall t q r o, InRef (refs (t_run ops)) t q r o <-> Fwd (t_run ops) t q r o.
+Proof. intros ops W. exact (ti_refs _ (t_run_TI ops W)). Qed.
+Print Assumptions C06_reference_index_exact.
+
+Theorem C06_names_exact : forall ops, wf_from t_init ops ->
+  forall ns n id, ns_lookup (t_run ops) ns n = Some id <->
+    exists s, In s (syms (t_run ops)) /\ s_ns s = ns /\ s_name s = Some n /\ s_id s = id.
+Proof. intros ops W. exact (ti_ns _ (t_run_TI ops W)). Qed.
+Print Assumptions C06_names_exact.
+
+(* non-vacuity: a history with a reference by name and one by id, a replacement and a removal is well formed *)
+Example C06_ex_wf :
+  let a := mksym 0 1 0 (Some 5) [] true [1; 2] [0] None in
+  let b := mksym 1 2 0 None [(1, [mkpref None (Some 5) 0]); (2, [mkpref (Some 3) None 0])] true [1; 2] [0] None in
+  let c := mksym 2 3 0 None [(1, [mkpref (Some 2) None 0])] true [1; 2] [0] None in
+  let a' := mksym 3 1 0 (Some 6) [] true [1; 2] [0] None in
+  wf_from t_init [TInsert b; TInsert a; TInsert c; TInsert a'; TFree 3].
+Proof. cbv zeta. apply wf_from_b_sound. vm_compute. reflexivity. Qed.
